@@ -417,6 +417,22 @@ def check_c20(rep, tier):
                     rep.violation("impl-vs-spec", f"show output disagrees with the game @ {last_obs[0]}",
                                   f"hash {h} vs {last_obs[1]}; fen {f}; diagram {placement}", replay_ops=case[: oi + 1])
                     break
+    # `show` and the record depend on the game the LAST `position` command describes, not on what the session held before
+    # it (a game that had come back to the start position, a longer game, a refused command)
+    second = ["position startpos moves e2e4", "position startpos", "position startpos moves g1f3 g8f6",
+              "position fen r3k2r/8/8/8/8/8/8/R3K2R w KQkq - 0 1 moves e1g1"]
+    first_cmds = ["position startpos moves g1f3 g8f6 f3g1 f6g8", "position startpos moves b1c3 b8c6 c3b1 c6b8 g1f3 g8f6 f3g1 f6g8",
+                  "position startpos moves e2e4 e7e5", "position fen r3k2r/8/8/8/8/8/8/R3K2R w KQkq - 0 1 moves a1b1 a8b8 b1a1 b8a8",
+                  "position startpos moves e2e5", "position fen 9/8 w - -"]
+    pc = [[s, "obs", "pgn", "show"] for s in second] + [[f, "obs", s, "obs", "pgn", "show"] for f in first_cmds for s in second]
+    po, _ = core.run_rust(pc)
+    base = {s: o[1:] for s, o in zip(second, po[: len(second)])}
+    for case, o in zip(pc[len(second):], po[len(second):]):
+        stats["position_twice_sessions"] += 1
+        if o[3:] != base[case[2]]:
+            rep.violation("impl-vs-spec", f"after `{case[0][:60]}` the command `{case[2]}` shows another game than it does in a fresh session",
+                          f"{o[3:]} vs {base[case[2]]}", replay_ops=case)
+            break
     searchchk.finish_corr(rep, "C20", cases, first, rust, lean)
     stats["cases"] = len(cases)
     return stats, kinds, cases
